@@ -21,7 +21,7 @@ import os
 import sys
 
 from ..core.seeds import stream
-from .universe import STRESS, context_params, get_func, make_context, print_options, req_key
+from .universe import STRESS, context_params, generated_request, get_func, make_context, print_options, req_key
 
 
 class InjectedFault(BaseException):
@@ -84,6 +84,8 @@ def gen_history(seed, universe, cfg):
         if t not in by_target:
             continue
         r = rq.choice(by_target[t])
+        if cfg.get("generated_programs") and rq.random() < cfg["generated_programs"]:
+            r = generated_request(rq, t)
         debug = rq.choice(cfg.get("debug_levels", {}).get(t, [0]))
         if rq.random() < p_shared and not r.get("params"):
             # background / shared-context request (its context is shared with other functions and targets)
@@ -111,7 +113,9 @@ def gen_history(seed, universe, cfg):
             if t != "xla_client" and cfg.get("reprint_targets") and rq.random() < 0.25:
                 # the same graph printed with another target from the same context
                 t2 = rq.choice([x for x in cfg["reprint_targets"] if x != t] or [t])
-                acts.append(["reprint", last[1], t2, rq.choice(cfg.get("debug_levels", {}).get(t2, [0]))])
+                narrow = any(x in (":float32", ":complex64") for x in r["sig"])
+                if not (t2 == "cpp" and r["func"].startswith("gen:") and narrow):  # see universe.generated_request
+                    acts.append(["reprint", last[1], t2, rq.choice(cfg.get("debug_levels", {}).get(t2, [0]))])
             threads.append(acts)
         else:
             # compared request: its own context, used for it and its repetitions only
@@ -167,6 +171,23 @@ def gen_history(seed, universe, cfg):
         pos = kn.randrange(len(out) + 1)
         out.insert(pos, ["env", kn.choice(cfg["allow_env"])])
     return out
+
+
+def solo_history(req, rec):
+    """The same request made alone on a fresh context, no faults (the control of the differential check
+    used for generated programs)."""
+    params = req.get("params")
+    acts = [["ctx", "c0", req["target"]] + ([params, "ctor"] if params else []),
+            ["trace", "r0", "c0", req["target"], req["func"], list(req["sig"])]]
+    key = rec["key"]
+    debug = rec["debug"] if ":as=" not in key else 0
+    if ":raw" in key:
+        acts.append(["print", "r0", debug, "bg", "raw"])
+    else:
+        acts += [["expand", "r0"], ["simplify", "r0"], ["print", "r0", debug, "bg"]]
+    if ":as=" in key:
+        acts.append(["reprint", "r0", key.split(":as=")[1], rec["debug"]])
+    return acts
 
 
 # ------------------------------------------------------------------ formatter environment faults
